@@ -435,6 +435,13 @@ pub fn c12_aba(rng: &mut Rng, _thorough: bool) -> Scenario {
         live.apply(&d);
         ops.extend(commit_ops(ids.s(), ids.c(), d, false));
     }
+    // cross-handle variant: the change set is prepared on a fresh handle (no change set applied
+    // by it yet), kept across a close, and committed into a later handle that has not applied any either
+    let cross_handle = rng.chance(1, 3);
+    if cross_handle {
+        ops.push(Op::Close);
+        ops.push(Op::Open(cfg.clone()));
+    }
     // the change set that will go stale: touches the group
     let cur: Vec<Key> = dense.iter().filter(|k| live.map.contains_key(*k)).copied().collect();
     let (s0, c0) = (ids.s(), ids.c());
@@ -471,6 +478,12 @@ pub fn c12_aba(rng: &mut Rng, _thorough: bool) -> Scenario {
     }
     live = before;
     ops.push(Op::CheckAll { proofs: 4 });
+    // sometimes the handle is closed and the directory reopened while the change set is held
+    // (finished sessions and overlays do not borrow the handle): still stale on the new handle
+    if cross_handle {
+        ops.push(Op::CloseKeep);
+        ops.push(Op::Open(cfg.clone()));
+    }
     // the stale change set: refused, no effect
     ops.push(Op::Commit { c: c0, nb: rng.chance(1, 2) });
     ops.push(Op::CheckAll { proofs: 4 });
